@@ -92,8 +92,10 @@ func drawOrders(s Src, n int) []int {
 }
 
 var clockStarts = []int64{
-	0, 1000, 999, 1_000_000, 1_727_000_000_000, 1_727_000_000_123, 32_503_680_000_000, // year 3000
-	-30_610_224_000_000, // year 1000
+	// kept inside 1700..2250: an implementation that goes through int64 nanoseconds
+	// (time.Time.UnixNano) is legitimate and only defined for 1678..2262
+	0, 1000, 999, 1_000_000, 1_727_000_000_000, 1_727_000_000_123, 8_835_868_800_000, // year 2250
+	-8_520_336_000_000, // year 1700
 	-1, -999, -1001, 86_399_999, 4_102_444_800_000,
 }
 
